@@ -46,6 +46,11 @@ static long do_input(unsigned char *dst, int space, struct kpipe *pp)
 {
 	int remaining = inlen - consumed, maxc, c, i, k;
 
+	if (space <= 0) {
+		/* a zero-length read or splice returns 0 whatever the state of the source: not an end of stream */
+		sx_cover("pump.zero-length-input-attempt");
+		return 0;
+	}
 	/* outcome: 0..maxc-1 => that many+1 bytes; then EAGAIN, EINTR, error */
 	if (remaining == 0 && !(eagain_budget > 0)) {
 		eof_seen = 1;
